@@ -53,8 +53,8 @@ func genOffender(seed uint64, tier string, force string) *Scenario {
 			st.NoPose = false
 			g.steps = append(g.steps, st)
 		}
-		for i := r.Intn(4); i > 0; i-- {
-			op := []string{"type_add", "comp_add", "action", "asset_add", "subscribe", "custom", "pose"}[r.Intn(7)]
+		for i := r.Intn(7); i > 0; i-- {
+			op := []string{"type_add", "comp_add", "action", "asset_add", "subscribe", "custom", "pose", "get_ground", "quad_sample", "get_region", "get_ground", "quad_sample"}[r.Intn(12)]
 			st := g.makeOp([]int{0, 2}[r.Intn(2)], op)
 			st.NoPose = false
 			g.steps = append(g.steps, st)
